@@ -8,25 +8,53 @@ open PsycheModel.Declarators
 def NoSpec : List Tok → Prop
   | .sp _ :: _ => False
   | .tdef :: _ => False
+  | .ty _ :: _ => False
+  | .tagd _ :: _ => False
   | _ => True
 
-theorem specs_pp (ss : List Spec) (rest : List Tok) (h : NoSpec rest) : specs (ss.map ppSpec ++ rest) = (ss, rest) := by
+theorem specsT_pp (ss : List Spec) (rest : List Tok) (h : NoSpec rest) (hn : noType ss = true) : specsT (ss.map ppSpec ++ rest) = (ss, rest) := by
   induction ss with
   | nil =>
     match rest, h with
     | [], _ => rfl
-    | .sp _ :: _, h | .tdef :: _, h => exact h.elim
+    | .sp _ :: _, h | .tdef :: _, h | .ty _ :: _, h | .tagd _ :: _, h => exact h.elim
     | .dcl _ :: _, _ | .eq :: _, _ | .ini _ :: _, _ | .comma :: _, _ | .semi :: _, _ | .body _ :: _, _ => rfl
-  | cons s ss ih => cases s <;> simp [specs, ppSpec, ih]
+  | cons s ss ih => cases s <;> simp_all [specsT, ppSpec, noType]
 
-theorem specs_sound : ∀ (ts : List Tok), ts = (specs ts).1.map ppSpec ++ (specs ts).2 ∧ NoSpec (specs ts).2 := by
+theorem specs_pp (ss : List Spec) (rest : List Tok) (h : NoSpec rest) (hk : okSpecs ss = true) : specs (ss.map ppSpec ++ rest) = (ss, rest) := by
+  induction ss with
+  | nil =>
+    match rest, h with
+    | [], _ => rfl
+    | .sp _ :: _, h | .tdef :: _, h | .ty _ :: _, h | .tagd _ :: _, h => exact h.elim
+    | .dcl _ :: _, _ | .eq :: _, _ | .ini _ :: _, _ | .comma :: _, _ | .semi :: _, _ | .body _ :: _, _ => rfl
+  | cons s ss ih =>
+    cases s with
+    | tagd n =>
+      simp only [okSpecs] at hk
+      simp [specs, ppSpec, specsT_pp ss rest h hk]
+    | kw n => simp only [okSpecs] at hk; simp [specs, ppSpec, ih hk]
+    | tdef => simp only [okSpecs] at hk; simp [specs, ppSpec, ih hk]
+    | ty n => simp only [okSpecs] at hk; simp [specs, ppSpec, ih hk]
+
+theorem specsT_sound : ∀ (ts : List Tok), ts = (specsT ts).1.map ppSpec ++ (specsT ts).2 ∧ noType (specsT ts).1 = true := by
   intro ts
   induction ts with
-  | nil => exact ⟨rfl, trivial⟩
+  | nil => exact ⟨rfl, rfl⟩
   | cons t ts ih =>
     cases t <;> first
-      | exact ⟨rfl, trivial⟩
-      | (simp only [specs, List.map_cons, List.cons_append, ppSpec]; exact ⟨by rw [← ih.1], ih.2⟩)
+      | exact ⟨rfl, rfl⟩
+      | (simp only [specsT, List.map_cons, List.cons_append, ppSpec, noType]; exact ⟨by rw [← ih.1], ih.2⟩)
+
+theorem specs_sound : ∀ (ts : List Tok), ts = (specs ts).1.map ppSpec ++ (specs ts).2 ∧ okSpecs (specs ts).1 = true := by
+  intro ts
+  induction ts with
+  | nil => exact ⟨rfl, rfl⟩
+  | cons t ts ih =>
+    cases t <;> first
+      | exact ⟨rfl, rfl⟩
+      | (simp only [specs, List.map_cons, List.cons_append, ppSpec, okSpecs]; exact ⟨by rw [← ih.1], ih.2⟩)
+      | (simp only [specs, List.map_cons, List.cons_append, ppSpec, okSpecs]; exact ⟨by rw [← (specsT_sound ts).1], (specsT_sound ts).2⟩)
 
 theorem ppIDs_cons (x : ID) (xs : List ID) (hne : xs ≠ []) : ppIDs (x :: xs) = ppID x ++ .comma :: ppIDs xs := by
   match xs, hne with
@@ -117,16 +145,16 @@ theorem ppIDs_head (ids : List ID) (hne : ids ≠ []) (X : List Tok) : ∃ d r, 
 theorem declaration_pp (r : R) (rest : List Tok) (h : acc r = true) : declaration (pp r ++ rest) = some (r, rest) := by
   cases r with
   | incomplete ss =>
-    simp only [acc, Bool.not_eq_true', List.isEmpty_eq_false_iff] at h
-    have hs := specs_pp ss (.semi :: rest) trivial
-    match ss, h, hs with
+    simp only [acc, Bool.and_eq_true, Bool.not_eq_true', List.isEmpty_eq_false_iff] at h
+    have hs := specs_pp ss (.semi :: rest) trivial h.2
+    match ss, h.1, hs with
     | s :: ss', _, hs => simp only [pp, List.append_assoc, List.cons_append, List.nil_append, declaration, hs]
   | typedefDecl ss ids =>
     simp only [acc, Bool.and_eq_true, Bool.not_eq_true', List.isEmpty_eq_false_iff] at h
-    obtain ⟨⟨⟨hss, htd⟩, hne⟩, hok⟩ := h
+    obtain ⟨⟨⟨⟨hss, htd⟩, hne⟩, hok⟩, hos⟩ := h
     obtain ⟨d, r0, hr⟩ := ppIDs_head ids hne (.semi :: rest)
     have hi := idl_pp ids true rest hne hok
-    have hs := specs_pp ss (ppIDs ids ++ .semi :: rest) (by rw [hr]; trivial)
+    have hs := specs_pp ss (ppIDs ids ++ .semi :: rest) (by rw [hr]; trivial) hos
     match ss, hss, hs with
     | s :: ss', _, hs =>
       simp only [pp, List.append_assoc, List.cons_append, List.nil_append, declaration, hs]
@@ -134,10 +162,10 @@ theorem declaration_pp (r : R) (rest : List Tok) (h : acc r = true) : declaratio
       simp only [hi, htd, if_true]
   | varDecl ss ids =>
     simp only [acc, Bool.and_eq_true, Bool.not_eq_true', List.isEmpty_eq_false_iff] at h
-    obtain ⟨⟨⟨hss, htd⟩, hne⟩, hok⟩ := h
+    obtain ⟨⟨⟨⟨hss, htd⟩, hne⟩, hok⟩, hos⟩ := h
     obtain ⟨d, r0, hr⟩ := ppIDs_head ids hne (.semi :: rest)
     have hi := idl_pp ids true rest hne hok
-    have hs := specs_pp ss (ppIDs ids ++ .semi :: rest) (by rw [hr]; trivial)
+    have hs := specs_pp ss (ppIDs ids ++ .semi :: rest) (by rw [hr]; trivial) hos
     match ss, hss, hs with
     | s :: ss', _, hs =>
       simp only [pp, List.append_assoc, List.cons_append, List.nil_append, declaration, hs]
@@ -146,8 +174,8 @@ theorem declaration_pp (r : R) (rest : List Tok) (h : acc r = true) : declaratio
       rfl
   | funDef ss d b =>
     simp only [acc, Bool.and_eq_true, Bool.not_eq_true', List.isEmpty_eq_false_iff] at h
-    obtain ⟨hss, hfd⟩ := h
-    have hs := specs_pp ss (.dcl d :: .body b :: rest) trivial
+    obtain ⟨⟨hss, hfd⟩, hos⟩ := h
+    have hs := specs_pp ss (.dcl d :: .body b :: rest) trivial hos
     match ss, hss, hs with
     | s :: ss', _, hs =>
       simp only [pp, List.append_assoc, List.cons_append, List.nil_append, declaration, hs, idl, hfd, if_true]
@@ -166,7 +194,7 @@ theorem declaration_sound (ts : List Tok) (r : R) (rest : List Tok) (h : declara
     · obtain ⟨r1, rfl⟩ := hsemi
       simp only [Option.some.injEq, Prod.mk.injEq] at h
       obtain ⟨rfl, rfl⟩ := h
-      exact ⟨by rw [hs.1]; simp [pp], rfl⟩
+      exact ⟨by rw [hs.1]; simp [pp], by simp [acc, hs.2]⟩
     · have hstep : (match idl true r0 with
           | some (ids, .semi, r') => some (if hasTypedef (a :: b) then R.typedefDecl (a :: b) ids else R.varDecl (a :: b) ids, r')
           | some ([⟨d, none⟩], .body bd, r') => some (R.funDef (a :: b) d bd, r')
@@ -192,36 +220,43 @@ theorem declaration_sound (ts : List Tok) (r : R) (rest : List Tok) (h : declara
           by_cases htd : hasTypedef (a :: b) = true
           · simp only [htd, if_true]
             refine ⟨by rw [hs.1, h3]; simp [pp], ?_⟩
-            simp [acc, htd, h2, h1]
+            simp [acc, htd, h2, h1, hs.2]
           · simp only [htd]
             refine ⟨by rw [hs.1, h3]; simp [pp], ?_⟩
-            simp [acc, htd, h2, h1]
+            simp [acc, htd, h2, h1, hs.2]
         | body bd =>
           obtain ⟨_, d, rfl, hfd, h4⟩ := h3
           simp only [Option.some.injEq, Prod.mk.injEq] at hstep
           obtain ⟨rfl, rfl⟩ := hstep
-          exact ⟨by rw [hs.1, h4]; simp [pp], by simp [acc, hfd]⟩
+          exact ⟨by rw [hs.1, h4]; simp [pp], by simp [acc, hfd, hs.2]⟩
 
 /-! ### the translation-unit loop -/
-theorem pp_head_spec (r : R) (h : acc r = true) (X : List Tok) : (∃ n t, pp r ++ X = .sp n :: t) ∨ (∃ t, pp r ++ X = .tdef :: t) := by
-  have key : ∀ (ss : List Spec) (Y : List Tok), ss ≠ [] → (∃ n t, ss.map ppSpec ++ Y = .sp n :: t) ∨ (∃ t, ss.map ppSpec ++ Y = .tdef :: t) := by
+/-- the first token of an accepted declaration's printing is a specifier -/
+def IsSpecTok : Tok → Prop
+  | .sp _ | .tdef | .ty _ | .tagd _ => True
+  | _ => False
+
+theorem pp_head_spec (r : R) (h : acc r = true) (X : List Tok) : ∃ t0 t, pp r ++ X = t0 :: t ∧ IsSpecTok t0 := by
+  have key : ∀ (ss : List Spec) (Y : List Tok), ss ≠ [] → ∃ t0 t, ss.map ppSpec ++ Y = t0 :: t ∧ IsSpecTok t0 := by
     intro ss Y hne
     match ss, hne with
-    | .kw n :: ss', _ => exact .inl ⟨n, _, rfl⟩
-    | .tdef :: ss', _ => exact .inr ⟨_, rfl⟩
+    | .kw n :: ss', _ => exact ⟨_, _, rfl, trivial⟩
+    | .tdef :: ss', _ => exact ⟨_, _, rfl, trivial⟩
+    | .ty n :: ss', _ => exact ⟨_, _, rfl, trivial⟩
+    | .tagd n :: ss', _ => exact ⟨_, _, rfl, trivial⟩
   cases r with
   | incomplete ss =>
-    simp only [acc, Bool.not_eq_true', List.isEmpty_eq_false_iff] at h
-    simpa [pp] using key ss (.semi :: X) h
+    simp only [acc, Bool.and_eq_true, Bool.not_eq_true', List.isEmpty_eq_false_iff] at h
+    simpa [pp] using key ss (.semi :: X) h.1
   | typedefDecl ss ids =>
     simp only [acc, Bool.and_eq_true, Bool.not_eq_true', List.isEmpty_eq_false_iff] at h
-    simpa [pp] using key ss (ppIDs ids ++ .semi :: X) h.1.1.1
+    simpa [pp] using key ss (ppIDs ids ++ .semi :: X) h.1.1.1.1
   | varDecl ss ids =>
     simp only [acc, Bool.and_eq_true, Bool.not_eq_true', List.isEmpty_eq_false_iff] at h
-    simpa [pp] using key ss (ppIDs ids ++ .semi :: X) h.1.1.1
+    simpa [pp] using key ss (ppIDs ids ++ .semi :: X) h.1.1.1.1
   | funDef ss d b =>
     simp only [acc, Bool.and_eq_true, Bool.not_eq_true', List.isEmpty_eq_false_iff] at h
-    simpa [pp] using key ss (.dcl d :: .body b :: X) h.1
+    simpa [pp] using key ss (.dcl d :: .body b :: X) h.1.1
 
 theorem unit_pp : ∀ (rs : List R) (f : Nat), rs.all accU = true → rs.length < f → unit f (ppU rs) = some rs
   | [], f + 1, _, _ => rfl
@@ -239,7 +274,9 @@ theorem unit_pp : ∀ (rs : List R) (f : Nat), rs.all accU = true → rs.length 
         · exact this
       have hd := declaration_pp r (ppU rs) ha
       simp only [ppU]
-      rcases pp_head_spec r ha (ppU rs) with ⟨n, t, e⟩ | ⟨t, e⟩ <;> (rw [e] at hd ⊢; simp only [unit, hd, ih])
+      obtain ⟨t0, t, e, ht0⟩ := pp_head_spec r ha (ppU rs)
+      rw [e] at hd ⊢
+      cases t0 <;> first | exact ht0.elim | simp only [unit, hd, ih]
   | _, 0, _, hf => by simp at hf
 
 theorem unit_sound : ∀ (f : Nat) (ts : List Tok) (rs : List R), unit f ts = some rs → ts = ppU rs ∧ rs.all accU = true ∧ rs.length < f := by
@@ -262,7 +299,7 @@ theorem unit_sound : ∀ (f : Nat) (ts : List Tok) (rs : List R), unit f ts = so
         subst h
         obtain ⟨h1, h2, h3⟩ := ih _ _ hu
         exact ⟨by simp [ppU, pp, ← h1], by simp [accU, h2], by simp; omega⟩
-    | .sp n :: r | .tdef :: r | .dcl _ :: r | .eq :: r | .ini _ :: r | .comma :: r | .body _ :: r =>
+    | .sp n :: r | .tdef :: r | .ty _ :: r | .tagd _ :: r | .dcl _ :: r | .eq :: r | .ini _ :: r | .comma :: r | .body _ :: r =>
       simp only [unit] at h
       split at h
       · rename_i x rest hd
